@@ -536,6 +536,15 @@ def c12_10(ctx):
     return out
 
 
+def c12_11(ctx):
+    """what the commitment is computed over and compared with rests on shared machinery, re-checked here because a slip there breaks
+    this property's "altered in any byte" clause: Script.parse keeps the raw bytes of a script whose push overruns (C04.2), the
+    one-byte codec covers 0..255 (control byte 0xfe|1 = 0xff) (C04.11), and the script path compares parity as well as x (C06.7)"""
+    from rules.C04 import c04_2, helper_codec_faithful
+    from rules.C06 import c06_7
+    return c04_2(ctx) + helper_codec_faithful(ctx) + c06_7(ctx)
+
+
 OBLIGATIONS = [
     ("C12.7", "SIBLING read-set", c12_7),
     ("C12.6", "MEMO", c12_6),
@@ -547,5 +556,6 @@ OBLIGATIONS = [
     ("C12.8", "SIBLING dataflow", c12_8),
     ("C12.9", "FALSY-DEFAULT", c12_9),
     ("C12.10", "CELLS annex index", c12_10),
+    ("C12.11", "SHARED codec + commitment comparison", c12_11),
 ]
 FLOORS = {"C12.1": 4, "C12.3": 6, "C12.4": 10, "C12.5": 5}
